@@ -268,6 +268,7 @@ type FuncCtx struct {
 	curArgExprs []ast.Expr
 	curRecvExpr ast.Expr
 	noName      int
+	inTypeInv   bool
 }
 
 type calleeCtx struct {
@@ -725,6 +726,45 @@ func (fc *FuncCtx) existing(st *State, t *Term, typ types.Type) {
 	switch types.Unalias(typ).Underlying().(type) {
 	case *types.Pointer, *types.Interface:
 		st.assume(Select(fc.allocArr(st), t))
+	}
+	fc.assumeTypeInv(st, t, typ)
+}
+
+// assumeTypeInv: representation invariants declared with "typeinv T: pred" are assumed for every value of type
+// *T that enters a function from outside (parameters, fields, call results). They are established by the
+// constructors and decoders of T's own package; each use is recorded as an assumption.
+func (fc *FuncCtx) assumeTypeInv(st *State, t *Term, typ types.Type) {
+	if fc.inTypeInv || len(fc.eng.contracts.TypeInvs) == 0 {
+		return
+	}
+	p, ok := types.Unalias(typ).Underlying().(*types.Pointer)
+	if !ok {
+		return
+	}
+	nm, ok := types.Unalias(p.Elem()).(*types.Named)
+	if !ok {
+		return
+	}
+	pred, ok := fc.eng.contracts.TypeInvs[pkgQual(nm)]
+	if !ok {
+		pred, ok = fc.eng.contracts.TypeInvs[nm.Obj().Name()]
+	}
+	if !ok {
+		return
+	}
+	g, ok := fc.eng.contracts.Ghosts[pred]
+	if !ok {
+		return
+	}
+	fc.inTypeInv = true
+	defer func() { fc.inTypeInv = false }()
+	fc.noOblig++
+	defer func() { fc.noOblig-- }()
+	sc := &specCtx{names: map[string]Val{}, callee: &calleeCtx{}, pkg: nm.Obj().Pkg()}
+	v := fc.callGhost(st, g, []Val{{T: t, Typ: typ}}, sc)
+	if v.T != nil && v.T.Sort.Kind == "Bool" {
+		st.assume(v.T)
+		fc.note("representation invariant assumed for incoming values of type " + pkgQual(nm) + ": " + pred)
 	}
 }
 
